@@ -29,7 +29,8 @@ CLAIMED = {
             "exact_chunks (which drops the short last chunk) counts as a truncated chunk sequence. "
             "Not decided: "
                 "numeric block boundaries for particular (n,k), multiset equality of rows. "
-                "Also decided: `fold` removes no block from the lists it cuts records and targets into (truncate / pop / drain on them is a violation: with n mod k > n / k the rows spread over more than k + 1 blocks).",
+                "Also decided: `fold` removes no block from the lists it cuts records and targets into (truncate / pop / drain on them is a violation: with n mod k > n / k the rows spread over more than k + 1 blocks). "
+                "A validation part is never the rest of a `split_at(Axis(0), n / k)` (a two-fold shortcut that hands out both halves gives the left-over rows to a validation set).",
         "design_ref": "DESIGN.md section 4, C01",
         "note": "Trusted: rustc resolution/typeck, the fact dump, documented semantics of slice::split_at_mut/swap_with_slice and ndarray selection methods.",
         "technique": _T + ": pairing/dominance of buffer permutations, sibling agreement under value numbering, dataflow of the fold size",
@@ -63,7 +64,8 @@ CLAIMED["C03"] = {
             "and no mutable state carried across rows on any predict path (helpers followed to depth 6, their results carrying the batch axis back to the caller; also for the scalers' and "
             "whiteners' transforms); model types contain no interior mutability; the composing wrappers follow their parts (the running arg-max replaces label and incumbent probability together; MultiClassModel's constructors keep every member - no keyed container or dropping adaptor on the member list; Pr::try_from, the range check behind Pr::new, rejects NaN when evaluated abstractly with a NaN argument). Not "
             "decided: equality of floating-point roundings between batch and single-row evaluation. "
-            "Also decided: no ordering written out in the linfa crate (the `Pr` the composed models select by) compares floating-point values through `to_bits()`; MultiTargetModel reshapes the collected predictions as (number of models, number of rows) - read structurally, through accessor methods - and transposes.",
+            "Also decided: no ordering written out in the linfa crate (the `Pr` the composed models select by) compares floating-point values through `to_bits()`; MultiTargetModel reshapes the collected predictions as (number of models, number of rows) - read structurally, through accessor methods - and transposes. "
+            "The loop over the one-vs-all members of MultiClassModel has no written-out `break` / `return` (every member is consulted; a batch-level confidence test would make a row's label depend on the other rows).",
     "design_ref": "DESIGN.md section 4, C03",
     "note": "Trusted: rustc resolution/typeck, the fact dump; ndarray's elementwise ops, dot and row iterators are row-local.",
     "technique": _T + ": batch-axis abstract interpretation, dominance of shape checks over output writes, type-closure scan for interior mutability",
@@ -83,7 +85,8 @@ CLAIMED["C04"] = {
             "Hand-written Clone impls of the parameter sets and models copy every field (derived ones do by construction), no builder method resets another user-settable field to a value that does not depend on its argument, and builder methods that rebuild the struct carry every field; the dominating check may be `check_ref()?`, a map/and_then on its result, the Ok arm of a match on it, or an Err arm that returns first. "
             "Constructor shortcuts (`Model::params(..)`) build the same value as the constructor they forward to: a builder method applied with an argument of the shortcut's own choosing must store what the constructor stores anyway. "
             "Not decided: behaviour of training on valid parameters. "
-            "Also decided: a float `is_positive()` is the sign-bit test (true for +0.0) and is modelled as `>= 0`; a rejection that only applies under a test of another, non-numeric parameter (`algorithm == Nipals && max_iter == 0`) rejects nothing of the documented range; hand-written `From<A> for B` whose target enum has a variant made to hold an `A` builds that variant (R-C04-from); validation helpers are read as part of the check also when they are handed the whole set under another name, take tuple parameters, end in a tail call of the next helper, or guard a match arm.",
+            "Also decided: a float `is_positive()` is the sign-bit test (true for +0.0) and is modelled as `>= 0`; a rejection that only applies under a test of another, non-numeric parameter (`algorithm == Nipals && max_iter == 0`) rejects nothing of the documented range; hand-written `From<A> for B` whose target enum has a variant made to hold an `A` builds that variant (R-C04-from); validation helpers are read as part of the check also when they are handed the whole set under another name, take tuple parameters, end in a tail call of the next helper, or guard a match arm. "
+            "Guards that combine parameters arithmetically (`penalty * l1_ratio < 0`) are evaluated as linear conditions on the parameter under analysis with the others at a witness value, and again with every boundary value of the others: the documented range holds for all of them. A verdict bound to a local (`let is_valid = match ..`) is read as its region.",
     "design_ref": "DESIGN.md section 4, C04",
     "note": "Trusted: rustc resolution/typeck, the fact dump, the documented range table frozen in rules/c04.py (one source reference per row). NaN/infinite parameter values are outside the claim, as in the property.",
     "technique": _T + ": guard extraction + interval algebra vs documented table, dominance of the check over entry points, who-may-construct on checked types",
@@ -102,7 +105,8 @@ CLAIMED["C07"] = {
             "No distance in linfa-nn is computed through the expanded square |a|^2 + |b|^2 - 2<a,b> (cancellation-prone away from the origin, so that path would disagree with the ones using the metric's rdistance). "
             "The dimension test of a query runs outside the loop over the stored points (an empty index must reject a malformed query too); the index types contain no interior mutability (a query cannot change the answer to the next); in linfa-nn no generic-float / f64 value is narrowed to f32 and stored, and no f32 arithmetic over converted values is widened back into the generic float. "
             "Not decided: geometric sufficiency of pruning bounds, k-NN ties. "
-            "Also decided: no allocation in linfa-nn is sized by a caller-supplied count alone (`with_capacity(k)` aborts for the k > n the property speaks about); a `from_batch` written out on CommonNearestNeighbour is a second dispatcher and is held to the same arm test; an impl of Distance that overrides one of rdistance / dist_to_rdist / rdist_to_dist overrides all three.",
+            "Also decided: no allocation in linfa-nn is sized by a caller-supplied count alone (`with_capacity(k)` aborts for the k > n the property speaks about); a `from_batch` written out on CommonNearestNeighbour is a second dispatcher and is held to the same arm test; an impl of Distance that overrides one of rdistance / dist_to_rdist / rdist_to_dist overrides all three. "
+            "A power of a coordinate difference in a Distance impl is taken of its absolute value or with a literal even exponent; the linear scan's admission through rdist_to_dist(..) < range counts as a plain-distance admission; the k-d tree's post-filter carries no additive slack.",
     "design_ref": "DESIGN.md section 4, C07",
     "note": "Trusted: rustc resolution/typeck, the fact dump (also of the locked kdtree dependency), consistency of each metric's four Distance methods.",
     "technique": _T + ": unit-of-measure tag inference (dist/rdist), sibling agreement of argument checks and of the radius relation, dependency facts for kdtree, homogeneity-degree abstract interpretation of the Distance impls",
@@ -119,7 +123,8 @@ CLAIMED["C08"] = {
             "The DBSCAN scan over the samples is never left early; OPTICS collects seeds only from a sample it has already listed; the unit rule of C07 runs here too (a coordinate pre-filter compared with a reduced radius). "
             "No `dedup()` on a list whose element type's hand-written PartialEq ignores fields (OPTICS' Sample compares by reachability only). Hand-written Clone impls of the parameter sets and models copy every field (derived ones do by construction), no builder method resets another user-settable field to a value that does not depend on its argument, and builder methods that rebuild the struct carry every field; no generic-float / f64 value is narrowed to f32 and stored, and no f32 arithmetic over converted values is widened back into the generic float. "
             "Not decided: OPTICS reachability values, border-point labels. "
-            "Also decided: every distance in DBSCAN / OPTICS is computed with the configured metric (a concrete metric type inside the generic code is a violation); the OPTICS core distance is taken from the neighbour of rank min_points - 1 with no value-dependent adaptor (skip_while, filter, dedup) in between; forwarding impls of Distance forward the whole reduced-scale trio.",
+            "Also decided: every distance in DBSCAN / OPTICS is computed with the configured metric (a concrete metric type inside the generic code is a violation); the OPTICS core distance is taken from the neighbour of rank min_points - 1 with no value-dependent adaptor (skip_while, filter, dedup) in between; forwarding impls of Distance forward the whole reduced-scale trio. "
+            "(through the shared linfa-nn rules) the same admission clauses: reduced against reduced in the linear scan, no slack in the k-d tree's post-filter.",
     "design_ref": "DESIGN.md section 4, C08",
     "note": "Trusted: rustc resolution/typeck, the fact dump.",
     "technique": _T + ": control dependence of frontier insertions on the canonical core condition, order taint of range-query results",
@@ -136,7 +141,8 @@ CLAIMED["C09"] = {
             "A distance scan over the centroids is left early only on a distance of exactly zero; every model literal a fit path returns takes cluster_count from a computed assignment; the metric's degree rule of C07 runs here too. "
             "Hand-written Clone impls of the parameter sets and models copy every field (derived ones do by construction), no builder method resets another user-settable field to a value that does not depend on its argument, and builder methods that rebuild the struct carry every field; no generic-float / f64 value is narrowed to f32 and stored, and no f32 arithmetic over converted values is widened back into the generic float. "
             "Not decided: cost monotonicity, bounding box, numeric inertia values. "
-            "Also decided: `rows().enumerate().skip(1)` is a full scan when the incumbent starts from (0, rdistance(row 0, x)); counts taken through `&mut` method borrows are computed counts.",
+            "Also decided: `rows().enumerate().skip(1)` is a full scan when the incumbent starts from (0, rdistance(row 0, x)); counts taken through `&mut` method borrows are computed counts. "
+            "No local declared before the restart loop of fit is assigned only inside the iteration loop (a `converged` flag that survives into the next restart); every arm of KMeansInit::run calls its own variant's routine; no per-block means averaged with one weight per block in the centroid updates.",
     "design_ref": "DESIGN.md section 4, C09",
     "note": "Trusted: rustc resolution/typeck, the fact dump, Distance::rdistance being the reduced distance of the configured metric.",
     "technique": _T + ": call-graph agreement on one arg-min routine, guarded-state consistency and reaching-definition freshness of the result fields",
@@ -155,7 +161,8 @@ CLAIMED["C10"] = {
             "reg_covar is added to the covariance diagonal after the normalisation by the component mass (nothing rescales the block afterwards). "
             "The fold that takes the row maximum for the shift starts from -infinity / min_value or from data. Hand-written Clone impls of the parameter sets and models copy every field (derived ones do by construction), no builder method resets another user-settable field to a value that does not depend on its argument, and builder methods that rebuild the struct carry every field; no generic-float / f64 value is narrowed to f32 and stored, and no f32 arithmetic over converted values is widened back into the generic float. "
             "Not decided: positive definiteness, weights summing to one. "
-            "Also decided: the mixing weights are column sums of the responsibilities divided by the sample count only while the responsibilities handed to the parameter estimation are the unscaled exp(log_resp) (or the divisor is their sum).",
+            "Also decided: the mixing weights are column sums of the responsibilities divided by the sample count only while the responsibilities handed to the parameter estimation are the unscaled exp(log_resp) (or the divisor is their sum). "
+            "compute_precisions_full takes no path without the matrix product unless it is keyed on the feature extent (axes 1, 2) of the factor array; both factors of the covariance product are centred.",
     "design_ref": "DESIGN.md section 4, C10",
     "note": "Trusted: rustc resolution/typeck, the fact dump.",
     "technique": _T + ": ordering/dominance of refresh over store, error-propagation dataflow, shifted log-sum-exp chain rule",
@@ -177,7 +184,8 @@ CLAIMED["C12"] = {
             "The user-supplied start vector of the logistic solvers is either normalised to the standard layout before it reaches the solver, or no objective function applies a layout-fallible operation (into_shape / as_slice + unwrap) to the parameter it receives (loss and gradient did: repaired). "
             "No two variants of the link dispatchers share one implementing type (each arm calls the implementation named after its variant); `TweedieRegressor::params()` builds what `TweedieRegressorParams::new()` builds. "
             "Not decided: stationarity of the "
-            "returned point beyond these necessary conditions, numeric range of probabilities.",
+            "returned point beyond these necessary conditions, numeric range of probabilities. "
+            "The chain-rule check reads through same-crate helpers (a clamp shared 'for consistency' between link_derivative and inverse_derivative is a clamp in inverse_derivative only); every non-error path of the two logistic fits goes through the solver on the model's own problem.",
     "design_ref": "DESIGN.md section 4, C12",
     "note": "Trusted: rustc resolution/typeck, the fact dump; soft-max is monotone per row.",
     "technique": _T + ": dominance of validation over the optimiser call, shifted log-sum-exp chain rule, common-producer check for decision and probabilities, sibling agreement of dispatcher arms, per-path influence (data-dependence) analysis",
@@ -194,7 +202,8 @@ CLAIMED["C16"] = {
             "A builder call that keeps a part only on some path (conditional reset of the weights) counts as dropping it. "
             "Hand-written Clone impls of the parameter sets and models copy every field (derived ones do by construction), no builder method resets another user-settable field to a value that does not depend on its argument, and builder methods that rebuild the struct carry every field; no generic-float / f64 value is narrowed to f32 and stored, and no f32 arithmetic over converted values is widened back into the generic float. "
             "Not decided: achieved means, variances, covariances. "
-            "Also decided: `transform` of a fitted scaler / whitener takes no statistic across the samples of the matrix it transforms (column means, sums .. of the input).",
+            "Also decided: `transform` of a fitted scaler / whitener takes no statistic across the samples of the matrix it transforms (column means, sums .. of the input). "
+            "`transform` hands the input back untouched for an empty matrix only; no mean of per-block means with one weight per block in the fit statistics.",
     "design_ref": "DESIGN.md section 4, C16",
     "note": "Trusted: rustc resolution/typeck, the fact dump. Divisions by singular values in the whiteners are outside the rule (the property claims whitening on full-rank data only).",
     "technique": _T + ": provenance of the output dataset's containers, dominance of the empty-input guard, zero-guard contradiction rule on data-derived divisors",
@@ -210,7 +219,8 @@ CLAIMED["C18"] = {
             "Every value path of explained_variance_ratio is computed from the singular values (directly or through another method of the model); DatasetBase::nsamples (the n of the whitening scale) depends on the records only. "
             "Pca::predict_inplace uses the batch row by row only: no reduction along the batch axis (a batch mean in the centring) enters the projection. Hand-written Clone impls of the parameter sets and models copy every field (derived ones do by construction), no builder method resets another user-settable field to a value that does not depend on its argument, and builder methods that rebuild the struct carry every field; no generic-float / f64 value is narrowed to f32 and stored, and no f32 arithmetic over converted values is widened back into the generic float. "
             "Not decided: orthonormality, ordering, spectral optimality, whitening covariance. "
-            "Also decided: the whitening scale is computed from the row count of the decomposed matrix, not from the sample weights; no method of Pca subtracts the mean from data it then hands to predict / transform (which centre themselves).",
+            "Also decided: the whitening scale is computed from the row count of the decomposed matrix, not from the sample weights; no method of Pca subtracts the mean from data it then hands to predict / transform (which centre themselves). "
+            "No model is returned from Pca::fit before the whitening branch.",
     "design_ref": "DESIGN.md section 4, C18",
     "note": "Trusted: rustc resolution/typeck, the fact dump; the feature=blas branch cannot be built offline and is not analysed.",
     "technique": _T + ": dominance of input guards over the decomposition, dataflow of the variance divisor to the recorded sample count, symbolic normal form of the transform/inverse composition",
@@ -229,7 +239,8 @@ CLAIMED["C13"] = {
             "The training kernel matrix is filled from KernelMethod::distance, the function prediction evaluates, not from a separate expanded-square formula. "
             "Problem set-ups are cross-checked against the solver kind: a nu formulation with two classes of variables (nu-SVC, nu-SVR) requests the nu-constrained solver, every other one the plain solver (the nu-SVR set-up of the pinned tree does not: known finding); the two running bounds of calculate_rho[_nu] are combined only under a finiteness test (one of them is still infinite when no variable of one kind exists, nu = 1); when solve() repeats the working-set selection and replaces the pair, no component of the first selection stays in use. Hand-written Clone impls of the parameter sets and models copy every field (derived ones do by construction), no builder method resets another user-settable field to a value that does not depend on its argument, and builder methods that rebuild the struct carry every field; no generic-float / f64 value is narrowed to f32 and stored, and no f32 arithmetic over converted values is widened back into the generic float. "
             "Not decided: KKT conditions, rho, objective values. "
-            "Also decided: in the Permutable impls a field left alone by swap_indices (targets, the kernel, its diagonal) is read through kernel_indices, a field it permutes (signs) is read by position.",
+            "Also decided: in the Permutable impls a field left alone by swap_indices (targets, the kernel, its diagonal) is read through kernel_indices, a field it permutes (signs) is read by position. "
+            "The branch of solve() that folds the support vectors into one hyperplane is taken exactly under is_linear(); positions in the Permutable impls are the trait methods' own parameters and what ranges over 0..length (an index of unknown space is undecided, not a violation).",
     "design_ref": "DESIGN.md section 4, C13",
     "note": "Trusted: rustc resolution/typeck, the fact dump; the index-space tags are inferred from the code's own swap(); sibling rules were confirmed against the reference SMO algorithm.",
     "technique": _T + ": index-space tag inference, stale-loop-bound detection, sibling agreement (deviant-behaviour) rules on SolverState",
@@ -248,7 +259,8 @@ CLAIMED["C14"] = {
             "No limit is compared through a truncating copy (`as usize`, round / floor). "
             "The stop test may sit in a helper (its match / if value is read as the exit condition). Hand-written Clone impls of the parameter sets and models copy every field (derived ones do by construction), no builder method resets another user-settable field to a value that does not depend on its argument, and builder methods that rebuild the struct carry every field; no generic-float / f64 value is narrowed to f32 and stored, and no f32 arithmetic over converted values is widened back into the generic float. "
             "Not decided: impurity arithmetic, leaf majorities, importances. "
-            "Also decided: `check` hands the checked parameter set on unchanged (c04's R-C04-same, so that the limits that reach the fit are the ones the caller set); the split threshold between two neighbouring feature values is strictly below the upper one (R-C14-midpoint; a genuine defect of the pinned tree, repaired).",
+            "Also decided: `check` hands the checked parameter set on unchanged (c04's R-C04-same, so that the limits that reach the fit are the ones the caller set); the split threshold between two neighbouring feature values is strictly below the upper one (R-C14-midpoint; a genuine defect of the pinned tree, repaired). "
+            "relative_impurity_decrease returns no unnormalised values under a positive threshold on their sum.",
     "design_ref": "DESIGN.md section 4, C14",
     "note": "Trusted: rustc resolution/typeck, the fact dump.",
     "technique": _T + ": sibling agreement of the fit-time and predict-time routing relation, dominance of limit tests over split creation, dependency analysis of weight accumulators, raw-buffer who-may-call rule",
@@ -283,7 +295,8 @@ CLAIMED["C20"] = {
             "caller-supplied seed; every rayon construct writes only through its own per-element parameters and performs no "
             "parallel float reduction. A lexicographic sort key over hash-map entries ranks no value component that was numbered in hash-iteration order (`map.insert(k, (map.len(), ..))` inside a loop over a hash container, found workspace-wide) before the unique map key; the first element of a hash iterator may seed an incumbent only if every replacement is governed by a total predicate. A comparator that decides ties through arithmetic (tolerance bands, rounded keys) or through an unread local closure is not accepted as total; rayon constructs with per-split state (map_init & co.) must not create generators or counters in that state; Labels::labels no longer hands hash order to callers (allow-list entry removed). "
             "Not decided: floating-point identity across machines, third-party internals. "
-            "Also decided: closure parameters lent from outer state (`Zip::from(&mut best).and(&mut *y).for_each(|b, t, ..| ..)` inside a loop over a hash map) are writes to outer state; `next()` under a test that the container has exactly one element, and incumbents replaced under a local closure that decides every pair of entries by value and then by key, are order-insensitive; named constants are literal seeds.",
+            "Also decided: closure parameters lent from outer state (`Zip::from(&mut best).and(&mut *y).for_each(|b, t, ..| ..)` inside a loop over a hash map) are writes to outer state; `next()` under a test that the container has exactly one element, and incumbents replaced under a local closure that decides every pair of entries by value and then by key, are order-insensitive; named constants are literal seeds. "
+            "KMeansInit::run hands no other initialiser's arm over to k-means|| (which is outside the claim); `select_nth_unstable(k)` + `truncate(k)` under a total order is an order-insensitive use of a hash iteration.",
     "design_ref": "DESIGN.md section 4, C20",
     "note": "Trusted: rustc resolution/typeck, the fact dump; third-party crates draw entropy only through the listed APIs. Allow-list entries are single symbols with a reason (rules/c20.py).",
     "technique": _T + ": order/entropy/schedule taint classification of every unordered source to its consumer",
@@ -299,7 +312,8 @@ CLAIMED["C05"] = {
             "the numerator of the MCC uses row sums and column sums alike (or neither); an accumulator that a loop of the metric code resets at the end of its body is reset on every path to the next iteration (no `continue` skips it); "
             "median_absolute_error reads the middle position(s) of a *fully sorted* error sequence (a selection around one position does not order its neighbours); no sum or difference in the metric code has the same operand on both sides (a trapezoid uses both end points); the class list of a confusion matrix over a dataset is the key set of a label-count cache that starts empty (shared with C02). "
             "Not decided: the numerical definitions themselves - MCC, F-beta, ROC / AUC and its treatment of ties and of the first threshold, log-loss, the regression formulas beyond their degrees, silhouette, Pearson, permutation invariance. "
-            "Also decided: the clip bounds of log_loss, evaluated exactly as f32 / f64 constants, lie strictly inside (0, 1) (`1 - MIN_POSITIVE` is 1.0); the class list a confusion matrix is laid out by is sorted where it is used or where it is made (nothing appended after the last sort); no ordering compares floats through their bit patterns.",
+            "Also decided: the clip bounds of log_loss, evaluated exactly as f32 / f64 constants, lie strictly inside (0, 1) (`1 - MIN_POSITIVE` is 1.0); the class list a confusion matrix is laid out by is sorted where it is used or where it is made (nothing appended after the last sort); no ordering compares floats through their bit patterns. "
+            "Every path of ConfusionMatrix::f1_score returns self.f_score(1); combined_labels drains an iterator that it consumes conditionally (next_if); the covariance behind pearson_correlation is a product of centred data, not a difference of raw moments.",
     "design_ref": "DESIGN.md section 4, C05",
     "note": "Trusted: rustc resolution/typeck, the fact dump; in ToConfusionMatrix::confusion_matrix(&self, ground_truth) the receiver is the prediction. Claimed late in the build (section 5).",
     "technique": _T + ": delegation-name agreement, homogeneity-degree (dimensional) abstract interpretation of the metric formulas, axis-role agreement between the construction of the confusion matrix and its consumers",
@@ -319,7 +333,8 @@ CLAIMED["C06"] = {
             "The requested number of clusters is not subtracted from the number of samples in unsigned arithmetic without a guard (more clusters than samples may be requested); a running position that is advanced by an amount depending on the loop index is advanced on every path through the loop body. "
             "The polynomial degree is used as given (not converted to an integer for an integer power); the -ln transform is not clamped; builder methods of the clustering and kernel parameters that rebuild the set carry every field and store their arguments unchanged. "
             "Not decided: numerical equality of entries, symmetry up to rounding, positive semidefiniteness, which points the index returns, agreement of dense and sparse products and sums, the linkage algorithm itself (kodama), ties. "
-            "Also decided: no bisection (`partition_point`, `binary_search_by`) over the merge steps' dissimilarities (not monotone for centroid / median linkage); a hand-computed offset into the condensed triangle does not divide one factor of r(2n - r - 1) before the product is formed.",
+            "Also decided: no bisection (`partition_point`, `binary_search_by`) over the merge steps' dissimilarities (not monotone for centroid / median linkage); a hand-computed offset into the condensed triangle does not divide one factor of r(2n - r - 1) before the product is formed. "
+            "The upper-triangle relation col > row is also read off explicit loops (`for (i, row) in outer_iterator().enumerate()`); no labels are returned before the linkage is computed (a threshold above every pairwise dissimilarity does not bound Ward's merge heights).",
     "design_ref": "DESIGN.md section 4, C06",
     "note": "Trusted: rustc resolution/typeck, the fact dump; kodama::linkage's documented step numbering; sprs::CsMatBase::new_from_unsorted's argument order. Claimed late in the build (section 5).",
     "technique": _T + ": index / operand agreement of the matrix fill, sign and operand analysis of the kernel arms, buffer-pairing and once-per-row analysis of the CSR construction, canonical relation and statement order of the stop test, remove / insert pairing of the merge, name agreement of the dispatchers",
@@ -336,7 +351,8 @@ CLAIMED["C11"] = {
             "The coordinate sweeps run over all features (a filtered list, never a prefix or a stride) and a whole-matrix term is added to the residual only after it was reset to the targets; with the axis roles of the parameters of the duality gaps declared (samples, features, tasks), products contract axes of one role, sums combine equally oriented arrays, and the axis-wise reductions of one function remove the same role from equally shaped arrays (a dimension-type inference: axisrole.py). "
             "Zero tests that decide whether a column is skipped or the residual is updated are exact comparisons - an absolute tolerance on a quantity that scales with the data makes the fit depend on the unit of the features (they were abs_diff tests: repaired). A residual update that is skipped under a zero test vanishes whenever the tested value is zero (it is a product with it: the residual never goes stale); no filtered list of column positions is zipped with an unfiltered walk over the columns; `Default::default()` and `new()` of the estimators build the same value. "
             "Not decided: optimality itself (KKT conditions, orthogonality of the OLS residual), non-negativity of the gap, convergence within the iteration budget. "
-            "Also decided (R-C11-gap, R-C11-blocksoft): floats made from a matrix's `.len()` are element counts, not sample counts; the multi-task dual norm is a maximum over row norms (norm_max on the matrix itself is a violation); the residual is rescaled into the dual feasible set whenever its dual norm exceeds l1_reg (no conjunct narrowing the condition); block_soft_thresholding returns zero on the boundary norm == threshold, so that 0 / 0 is never formed (a genuine defect of the pinned tree, repaired).",
+            "Also decided (R-C11-gap, R-C11-blocksoft): floats made from a matrix's `.len()` are element counts, not sample counts; the multi-task dual norm is a maximum over row norms (norm_max on the matrix itself is a violation); the residual is rescaled into the dual feasible set whenever its dual norm exceeds l1_reg (no conjunct narrowing the condition); block_soft_thresholding returns zero on the boundary norm == threshold, so that 0 / 0 is never formed (a genuine defect of the pinned tree, repaired). "
+            "A filter on the features of a sweep may only drop empty columns (screening by the correlation with the target freezes features); the l2,1 norm of the multi-task gap takes the square root per row, before the sum over rows.",
     "design_ref": "DESIGN.md section 4, C11",
     "note": "Trusted: rustc resolution/typeck, the fact dump. Claimed late in the build (section 5).",
     "technique": _T + ": ingredient (data-dependence) analysis of the published intercept, role agreement of the two penalty terms across the descents and the duality gaps, canonical form of the soft threshold and of the stopping test, branch structure of the OLS fit",
@@ -354,7 +370,8 @@ CLAIMED["C15"] = {
             "The per-coordinate learning-rate term of FTRL is 0, not 0/0, for a coordinate without any gradient so far (the formula evaluated over {zero, positive} at n = 0, g = 0); the fused (Zip) form of the FTRL update accumulates z and n like the statement form; raw memory-order buffers of linfa-bayes / linfa-ftrl are used by position only behind a layout test. "
             "The cluster counts that KMeans::fit stores are the counted memberships, unadjusted (fit_with continues a running mean from them); the variance boost is subtracted either from every class of the carried model or not at all - never per class of the current batch; a struct literal that copies from a struct with a like-named field takes the like-named field (Ftrl::new: l1 from l1). "
             "Not decided: the statistics themselves (pooled mean / variance algebra, log-probabilities, the learning-rate formula), equality of batch and incremental results as numbers, posterior arg-max (ties are decided under C20). "
-            "Also decided: the per-class update of naive Bayes fit_with walks a duplicate-free collection of the batch's classes (labels(), a set, or sort + dedup); the shift of the mini-batch k-means centroids and the tolerance are compared in one space (a reduced distance against dist_to_rdist(tolerance), a distance against the tolerance itself).",
+            "Also decided: the per-class update of naive Bayes fit_with walks a duplicate-free collection of the batch's classes (labels(), a set, or sort + dedup); the shift of the mini-batch k-means centroids and the tolerance are compared in one space (a reduced distance against dist_to_rdist(tolerance), a distance against the tolerance itself). "
+            "FTRL fit_with applies the update on every non-error path; GaussianNb's pooled variance is not a second moment minus the squared pooled mean.",
     "design_ref": "DESIGN.md section 4, C15",
     "note": "Trusted: rustc resolution/typeck, the fact dump. Claimed late in the build (section 5 explains what changed the earlier not-applicable verdict).",
     "technique": _T + ": delegation of batch to incremental fitting, accumulate-vs-replace of carried state, pairing of the epsilon subtraction and addition, read-before-write snapshot of the FTRL weights, canonical form of the sparsity and convergence tests",
@@ -373,7 +390,8 @@ CLAIMED["C17"] = {
             "Every constructor of a fitted count vectoriser derives the column -> word list from the word -> column map it stores (hashmap_to_vocabulary); every longer n-gram extends the previous one (a buffer carried across the iterations); the document frequency handed to compute_idf is counted over the transformed documents, not read from what the fitted vectoriser remembers. "
             "The lower end of the document-frequency window is not a truncated (floor) conversion of the relative minimum into a count (it was: repaired - the window now compares relative frequencies). Builder methods of the vectorisers store their arguments unchanged (no case folding, trimming or filtering of stop words or expressions); check_ref compiles the tokeniser expression that is configured now (the write of the compiled form is not skipped because one is already there). "
             "Not decided: the recount itself - what the regex or tokenizer function matches, the float-to-count arithmetic of the frequency window, the three idf formulas, which entries a feature cap keeps (the sort key's reproducibility is decided under C20), the order of the vocabulary. "
-            "Also decided: stop words enter the fit-side and the transform-side tokenisation alike (a stop-word filter before the n-grams on one side only is a pipeline difference); an Iterator impl of the n-gram walk that overrides a provided method without going through next() is left undecided.",
+            "Also decided: stop words enter the fit-side and the transform-side tokenisation alike (a stop-word filter before the n-grams on one side only is a pipeline difference); an Iterator impl of the n-gram walk that overrides a provided method without going through next() is left undecided. "
+            "The lookup loops of analyze_document have no written-out early exit; the relative document frequency is the quotient count / n, not a product with a precomputed reciprocal.",
     "design_ref": "DESIGN.md section 4, C17",
     "note": "Trusted: rustc resolution/typeck, the fact dump; HashSet iteration yields each element once; sprs append / iter_mut pair a value with its column index. Claimed late in the build (section 5 explains what changed the earlier not-applicable verdict).",
     "technique": _T + ": sibling agreement of the fit-time and transform-time tokenisation pipelines, tuple-position provenance of map-value components, enumerate-before-filter, index provenance of multipliers",
